@@ -5,6 +5,7 @@
   ends right after the first final packet.
 -/
 import ZvtVerif.Proofs.ClientLemmas
+import ZvtVerif.Proofs.ClientTraffic
 namespace Zvt.C06C
 open Zvt
 
@@ -86,5 +87,20 @@ theorem failed_reply_not_acknowledged (d : SeqDesc) (dl : Nat) (w : World) (c : 
         cases hw : connWrite (w.waited k) c2 ackBytes with
         | none => rfl
         | some wc2 => simp [hw] at h
+
+/-- **C05 / C06 on the wire, at the client's stream**: what one `stream.next()` writes on its connection (`sentOn`: the
+packets the terminal logged as received). The first call writes the command once and — exactly when it yields a
+decoded packet — one acknowledgement behind it; every later call writes one acknowledgement exactly when it yields a
+decoded packet; a finished stream writes nothing. So every packet handed to the caller was answered exactly once, before
+it was handed over, and an error item or a time-out never comes with an acknowledgement. -/
+theorem next_writes (d : SeqDesc) (dl : Nat) (w : World) (c : ConnSt) (st : SeqSt) (hl : c.id < w.logs.length) :
+    ∃ S, (seqNext d dl w c st).2.1.sentOn c.id = w.sentOn c.id ++ S ∧
+      (match st with
+       | .start => ((seqNext d dl w c st).1.isOk = true ∧ S = [d.cmd, ackBytes]) ∨
+                   ((seqNext d dl w c st).1.isOk = false ∧ (S = [] ∨ S = [d.cmd]))
+       | .looping => ((seqNext d dl w c st).1.isOk = true ∧ S = [ackBytes]) ∨
+                     ((seqNext d dl w c st).1.isOk = false ∧ S = [])
+       | .done => S = []) :=
+  seqNext_writes d dl w c st hl
 
 end Zvt.C06C
